@@ -9,6 +9,7 @@ import sympy
 from wadler_lindig import pformat
 
 from mxlpy.meta.sympy_tools import fn_to_sympy, list_of_symbols
+from mxlpy.types import Derived
 
 if TYPE_CHECKING:
     from mxlpy.model import Model
@@ -105,22 +106,23 @@ def to_symbolic_model(model: Model) -> SymbolicModel:
             raise ValueError(msg)
         rxns[k] = expr
 
-    # Go through stoichiometries & derived stoichiometries
+    # Go through stoichiometries; computed ones stay symbolic (also the ones that
+    # depend on parameters only), such that the equations hold for every parameter set
     eqs: dict[str, sympy.Expr] = {}
-    for cpd, stoich in cache.stoich_by_cpds.items():
-        for rxn, stoich_value in stoich.items():
-            eqs[cpd] = (
-                eqs.get(cpd, sympy.Float(0.0)) + sympy.Float(stoich_value) * rxns[rxn]  # type: ignore
-            )
-    for cpd, dstoich in cache.dyn_stoich_by_cpds.items():
-        for rxn, der in dstoich.items():
-            if (
-                factor := fn_to_sympy(
-                    der.fn, origin=cpd, model_args=[symbols[i] for i in der.args]
-                )
-            ) is None:
-                msg = f"Unable to parse stoichiometry of '{cpd}' in '{rxn}'"
-                raise ValueError(msg)
+    for rxn, reaction in model.get_raw_reactions().items():
+        for cpd, stoich_value in reaction.stoichiometry.items():
+            if isinstance(stoich_value, Derived):
+                if (
+                    factor := fn_to_sympy(
+                        stoich_value.fn,
+                        origin=cpd,
+                        model_args=[symbols[i] for i in stoich_value.args],
+                    )
+                ) is None:
+                    msg = f"Unable to parse stoichiometry of '{cpd}' in '{rxn}'"
+                    raise ValueError(msg)
+            else:
+                factor = sympy.Float(stoich_value)
             eqs[cpd] = eqs.get(cpd, sympy.Float(0.0)) + factor * rxns[rxn]  # type: ignore
 
     return SymbolicModel(
